@@ -13,7 +13,7 @@ P = {
     ],
     "exhaustive_scope": "all 11 x 11 (from, to) type pairs x 3 z0 modes, each with one derived instance (shape, data, 2 frequencies), called out of place and in place",
     "tiers": tiers(
-        quick=[{"name": "rand", "mode": "run", "count": 18000, "max_size": 100, "shards": 15},
+        quick=[{"name": "rand", "mode": "run", "count": 60000, "max_size": 100, "shards": 15, "max_seconds": 60},
                {"name": "enum", "mode": "enum", "count": 1000, "max_size": 1, "shards": 1}],
         thorough=[{"name": "rand", "mode": "run", "count": 1500000, "max_size": 100, "shards": 15, "max_seconds": 1200},
                   {"name": "enum", "mode": "enum", "count": 1000, "max_size": 1, "shards": 1}],
